@@ -63,6 +63,8 @@ type scriptedRPC struct {
 	good  map[seg.Type][]*seg.PathSegment // verifiable segments the server knows
 	bad   map[seg.Type][]*seg.PathSegment // same shape, signed by a key nobody certified
 	extra int                             // how many non-matching segments to add to a reply
+	until time.Time                       // a slow server: replies are not sent before this instant
+	last  time.Time                       // when the last reply was handed back
 	sent  map[string]*seg.Meta            // verifiable segments handed out, by type/id
 }
 
@@ -111,12 +113,16 @@ func (s *scriptedRPC) Segments(_ context.Context, r segfetcher.Request, _ net.Ad
 			}
 		}
 	}
+	if d := time.Until(s.until); d > 0 { // slow server (the lock serialises the replies, which is fine)
+		time.Sleep(d)
+	}
+	s.last = time.Now()
 	s.calls = append(s.calls, vt.M{"t": r.SegType.String(), "src": iaRec(r.Src), "dst": iaRec(r.Dst), "n": len(out),
 		"unverifiable": nbad, "others": others})
 	return segfetcher.SegmentsReply{Segments: out, Peer: &net.UDPAddr{IP: net.IPv4(127, 0, 0, 7), Port: 30252}}, nil
 }
 
-func runRemote(ctx context.Context, w *vt.Writer, n, per int, caseNo *int) {
+func runRemote(ctx context.Context, w *vt.Writer, n, per, slowEvery int, caseNo *int) {
 	world := segs.NewWorld(time.Now())
 	defer world.Close()
 	ver := compat.Verifier{Verifier: world.Verifier()}
@@ -170,6 +176,29 @@ func runRemote(ctx context.Context, w *vt.Writer, n, per int, caseNo *int) {
 			if dst == local {
 				continue
 			}
+			// slow-server family: segments that run out WHILE the segments are being fetched (the server
+			// answers one second after they expired): they must not yield a path
+			slow := k == 0 && i%slowEvery == 0
+			var shortSet *segs.SegSet
+			var runOut time.Time
+			if slow {
+				saved := map[addr.IA]uint8{}
+				for _, ia := range t.Order {
+					saved[ia] = t.ASes[ia].MaxExp
+					t.ASes[ia].MaxExp = 2
+				}
+				// expiry = ts + 3 units = ts + 1012.5 s, placed about 4 s from now
+				tsShort := time.Now().Add(4 * time.Second).Add(-1012500 * time.Millisecond).Truncate(time.Second)
+				runOut = tsShort.Add(1012500 * time.Millisecond)
+				ss, err := t.Run(tsShort, rng, 5, good)
+				if err != nil {
+					vt.Fatal("beaconing: %v", err)
+				}
+				shortSet = ss
+				for _, ia := range t.Order {
+					t.ASes[ia].MaxExp = saved[ia]
+				}
+			}
 			name := fmt.Sprintf("file:veriflookupr%d_%d", os.Getpid(), atomic.AddInt64(&dbSeq, 1))
 			pdb, err := pathsqlite.New(name, &db.SqliteConfig{InMemory: true})
 			if err != nil {
@@ -177,7 +206,12 @@ func runRemote(ctx context.Context, w *vt.Writer, n, per int, caseNo *int) {
 			}
 			rpc := &scriptedRPC{good: map[seg.Type][]*seg.PathSegment{}, bad: map[seg.Type][]*seg.PathSegment{},
 				extra: rng.Intn(3), sent: map[string]*seg.Meta{}}
-			for _, ss := range sets {
+			useSets := sets
+			if slow { // only the short-lived segments: every path of this lookup runs out during the fetch
+				useSets = []*segs.SegSet{shortSet}
+				rpc.until = runOut.Add(time.Second)
+			}
+			for _, ss := range useSets {
 				for ia, l := range ss.Down {
 					for _, s := range l {
 						if ia == local {
@@ -237,6 +271,11 @@ func runRemote(ctx context.Context, w *vt.Writer, n, per int, caseNo *int) {
 				ev["err"] = err != nil
 				ev["now0"] = int(now0.Sub(t0) / time.Millisecond)
 				ev["now1"] = int(now1.Sub(t0)/time.Millisecond) + 1
+				ev["tfetch"] = ev["now0"]
+				if !rpc.last.IsZero() {
+					ev["tfetch"] = int(rpc.last.Sub(t0) / time.Millisecond)
+				}
+				rpc.until = time.Time{}
 				rpc1 = append([]vt.M{}, rpc.calls...)
 				// the segments the first lookup worked with: resolved locally + verifiable replies
 				var ups, cores, downs []*seg.PathSegment
